@@ -13,6 +13,9 @@
 #include "vf.h"
 #include "ref.h"
 #include "provider_stub.h"
+#ifdef PROP_C18
+#include "c18_gen.h"
+#endif
 
 #ifndef L
 #define L 12
@@ -254,6 +257,13 @@ static void scan_token(void)
 	}
 }
 
+#ifdef PROP_C18
+static jwt_checker_t *chk2;
+static jwt_checker_t chk2_before;
+static jwk_item_t key_before, key2_before;
+static unsigned char oct_before[4];
+#endif
+
 /* configuration chosen by the harness */
 static int have_key, via_cb, have_cb;
 static jwt_alg_t cfg_alg;
@@ -481,6 +491,28 @@ int main(void)
 	__CPROVER_assume(vf_now >= 0 && vf_now <= (1L << 62));
 #endif
 
+#ifdef PROP_C18
+	/* a second, unrelated checker and the shared key: must not be touched by the call */
+	vf_cls = VF_CLS_CHECKER;
+	chk2 = jwt_checker_new();
+	__CPROVER_assume(chk2 != NULL);
+	vf_cls = VF_CLS_JWT;
+	jwt_checker_setkey(chk2, cfg_alg, have_key ? &key : NULL);
+	chk2->error = nondet_int();
+	chk2_before = *chk2;
+	/* fields the library has no business writing get arbitrary values, so that a write of any
+	 * constant is visible */
+	key.error = nondet_int();
+	key.error_msg[0] = nondet_char();
+	key.use = (jwk_pub_key_use_t)nondet_uint();
+	key.key_ops = (jwk_key_op_t)nondet_uint();
+	key_before = key;
+	key2_before = key2;
+	for (i = 0; i < 4; i++)
+		oct_before[i] = octkey[i] = nondet_uchar();
+	c18_havoc();
+	c18_snapshot();
+#endif
 	/* ================================================================= the call */
 	v = jwt_checker_verify(chk, tok);
 	/* ================================================================= */
@@ -654,6 +686,30 @@ int main(void)
 		REACH(v == 0 && cb_ran && cb_setkey && cb_setalg && eff_have_key, "accepted with callback-selected key and alg");
 		REACH(v != 0 && cb_ran && cb_ret == 0 && cb_setkey && !ref_setkey_admits(eff_alg, eff_have_key, eff_have_key ? eff_key->alg : JWT_ALG_NONE), "callback-selected pair refused");
 		REACH(v != 0 && cb_ran && cb_ret != 0, "callback error rejects");
+#endif
+
+#ifdef PROP_C18
+		c18_check();
+		PROP(chk2->c.alg == chk2_before.c.alg && chk2->c.key == chk2_before.c.key && chk2->c.payload == chk2_before.c.payload &&
+		     chk2->c.headers == chk2_before.c.headers && chk2->c.claims == chk2_before.c.claims && chk2->c.cb == chk2_before.c.cb &&
+		     chk2->c.cb_ctx == chk2_before.c.cb_ctx && chk2->c.exp == chk2_before.c.exp && chk2->c.nbf == chk2_before.c.nbf &&
+		     chk2->error == chk2_before.error && chk2->error_msg[0] == chk2_before.error_msg[0],
+		     "C18: another checker object is not touched by the call");
+		PROP(key.pem == key_before.pem && key.provider == key_before.provider && key.oct.key == key_before.oct.key &&
+		     key.oct.len == key_before.oct.len && key.is_private_key == key_before.is_private_key && key.bits == key_before.bits &&
+		     key.error == key_before.error && key.kty == key_before.kty && key.use == key_before.use && key.key_ops == key_before.key_ops &&
+		     key.alg == key_before.alg && key.kid == key_before.kid && key.json == key_before.json &&
+		     key.curve[0] == key_before.curve[0] && key.error_msg[0] == key_before.error_msg[0] &&
+		     key.node.next == key_before.node.next && key.node.prev == key_before.node.prev,
+		     "C18: the shared key item is only read");
+		PROP(key2.alg == key2_before.alg && key2.bits == key2_before.bits && key2.error == key2_before.error &&
+		     key2.oct.key == key2_before.oct.key && key2.oct.len == key2_before.oct.len && key2.error_msg[0] == key2_before.error_msg[0],
+		     "C18: a key item selected by the callback is only read");
+		PROP(octkey[0] == oct_before[0] && octkey[1] == oct_before[1] && octkey[2] == oct_before[2] && octkey[3] == oct_before[3],
+		     "C18: shared key material is only read");
+		REACH(v == 0 && eff_have_key, "accepting path with a key");
+		REACH(v != 0 && pv_verify_calls == 1, "rejecting path after the oracle");
+		REACH(v == 0 && pv_hmac_calls == 1, "accepting HMAC path");
 #endif
 
 #ifdef PROP_C06
